@@ -6,6 +6,7 @@ import (
 	"regexp"
 	"strconv"
 	"strings"
+	"time"
 
 	"github.com/wader/fq/internal/verif/c05"
 	"github.com/wader/fq/internal/verif/core"
@@ -126,7 +127,7 @@ func enumPaths(maxLen int, fn func(idx int64, p []any) bool) int64 {
 	return idx
 }
 
-func runPaths(r *core.Run, maxLen int) bool {
+func runPaths(r *core.Run, until time.Time, maxLen int) bool {
 	s, err := fqrun.NewSession(nil)
 	if err != nil {
 		panic(err)
@@ -174,8 +175,8 @@ func runPaths(r *core.Run, maxLen int) bool {
 		if !r.Mine(idx) {
 			return true
 		}
-		if r.Expired() {
-			r.NotExhaustive("deadline during path enumeration")
+		if r.Expired() || time.Now().After(until) {
+			r.NotExhaustive("deadline (or this part's share of it) during path enumeration")
 			complete = false
 			return false
 		}
